@@ -43,7 +43,13 @@ def main():
         sh(f'git -C /repo worktree remove --force {wt}')
     dst = os.path.join(V, 'seeded', 'refactorings', rid)
     os.makedirs(dst, exist_ok=True)
-    shutil.copy(patch, os.path.join(dst, 'patch.diff'))
+    if os.path.abspath(patch) != os.path.abspath(os.path.join(dst, 'patch.diff')): shutil.copy(patch, os.path.join(dst, 'patch.diff'))
+    try:
+        prev = json.load(open(os.path.join(dst, 'meta.json')))
+        out['history'] = prev.get('history', []) + [{'alarms': prev.get('alarms'), 'test_suite': prev.get('test_suite')}]
+        for k in ('summary', 'files'):
+            if not out.get(k): out[k] = prev.get(k)
+    except Exception: pass
     json.dump(out, open(os.path.join(dst, 'meta.json'), 'w'), indent=1)
     print(rid, 'tests:', out.get('test_suite'), 'alarms:', out.get('alarms'))
 
